@@ -12,9 +12,18 @@ let n = n_of_string
 let s_of_n = string_of_n
 let ni = n_of_int
 
-let parse_caller c = match c with
-  | 'p' -> SP
-  | d -> SC (ni (Char.code d - 48))
+(* the session of a token: 'p' or the digits of a fabric index; returns it with the arguments *)
+let parse_caller_args (t : string) : caller * string list =
+  let len = String.length t in
+  let (c, pos) =
+    if len > 1 && t.[1] = 'p' then (SP, 2)
+    else begin
+      let j = ref 1 in
+      while !j < len && t.[!j] >= '0' && t.[!j] <= '9' do incr j done;
+      (SC (n_of_string (String.sub t 1 (!j - 1))), !j)
+    end in
+  let rest = if pos < len && t.[pos] = ':' then String.sub t (pos + 1) (len - pos - 1) else "" in
+  (c, if rest = "" then [] else split_on ':' rest)
 
 let parse_op (t : string) : op =
   match t.[0] with
@@ -28,9 +37,8 @@ let parse_op (t : string) : op =
      | [_; f; p] -> OResume (n f, n p)
      | _ -> failwith ("bad op " ^ t))
   | kind ->
-    let c = parse_caller t.[1] in
+    let (c, rest) = parse_caller_args t in
     let cf = match c with SC f -> f | SP -> N0 in
-    let rest = if String.length t > 3 then split_on ':' (String.sub t 3 (String.length t - 3)) else [] in
     let a i = n (List.nth rest i) in
     (match kind with
      | 'A' -> OArm c
@@ -90,7 +98,12 @@ let rec take k l = if k <= 0 then [] else match l with [] -> [] | x :: t -> x ::
 
 let run_s (f : string list) : string =
   let init = List.nth f 2 in
-  let st0 = init_state (ni (Char.code init.[0] - 48)) (init.[1] = '1') in
+  let st0 =
+    if init.[0] = 'i' then begin
+      match split_on ':' (String.sub init 1 (String.length init - 1)) with
+      | [idx; p] -> init_state_at (List.map n (List.filter (fun x -> x <> "") (split_on '+' idx))) (p = "1")
+      | _ -> failwith ("bad init " ^ init)
+    end else init_state (ni (Char.code init.[0] - 48)) (init.[1] = '1') in
   let ops = match f with
     | _ :: _ :: _ :: o :: _ -> List.map (fun t -> (t, parse_op t)) (List.filter (fun x -> x <> "") (split_on ',' o))
     | _ -> [] in
